@@ -96,12 +96,13 @@ def applyCfg (s : St) : List String → Option St
   | ["whitelist", a] => some { s with params := { s.params with whitelist := a :: s.params.whitelist } }
   | ["block", a] => some { s with params := { s.params with blocked := a :: s.params.blocked } }
   | ["poolmargin", sym, a, b, c, d] => do
+      -- what x/margin leaves on a pool: liabilities are bookkeeping only, custody is carved out of the
+      -- pool's own balance (balance + custody unchanged, no coins move)
       let p ← s.pools.get (poolKey sym)
       let nL ← parseNat a; let eL ← parseNat b; let nC ← parseNat c; let eC ← parseNat d
-      -- the harness also moves the custody difference into / out of the module account
-      let s1 := s.setBal clpAcct rowan (s.bal clpAcct rowan + nC - p.nCust)
-      let s2 := s1.setBal clpAcct sym (s1.bal clpAcct sym + eC - p.eCust)
-      some { s2 with pools := s2.pools.set (poolKey sym) { p with nLiab := nL, eLiab := eL, nCust := nC, eCust := eC } }
+      if nC > p.nBal + p.nCust || eC > p.eBal + p.eCust then none else
+      let p' : Pool := { p with nLiab := nL, eLiab := eL, nCust := nC, eCust := eC, nBal := p.nBal + p.nCust - nC, eBal := p.eBal + p.eCust - eC }
+      some { s with pools := s.pools.set (poolKey sym) p' }
   | _ => none
 
 partial def parseChanges : List String → List (String × String × Nat × Nat) → Option (List (String × String × Nat × Nat))
